@@ -209,7 +209,7 @@ def run_obligation(task):
     shard = obl.get("shard", {})
     types = obl["types"]
     pre_fn = getattr(mod, obl["pre"]) if obl.get("pre") else None
-    budget = obl.get("budget", 60) * float(os.environ.get("VERIF_BUDGET_SCALE", "3"))
+    budget = obl.get("budget", 60) * float(os.environ.get("VERIF_BUDGET_SCALE", task.get("scale", "3")))
     per_path = obl.get("per_path", 30)
     known = set(task.get("known", []))
     counters = {"completed": 0}
@@ -427,7 +427,7 @@ class Pool:
     def _assign(self, w, task):
         w["task"] = task
         w["t0"] = time.time()
-        b = task["obl"].get("budget", 60) * float(os.environ.get("VERIF_BUDGET_SCALE", "3"))
+        b = task["obl"].get("budget", 60) * float(os.environ.get("VERIF_BUDGET_SCALE", task.get("scale", "3")))
         w["hard"] = 2 * b + 90
         w["conn"].send(task)
 
@@ -485,7 +485,10 @@ def check_property(prop, tier):
         import mutants
         mutants.apply(os.environ["VERIF_MUTANT"])     # fail loudly here if the mutant no longer applies
     known, fixed = load_known(prop)
-    tasks = [{"prop": prop, "module": module, "obl": o, "known": sorted(known), "tier": tier}
+    # quick budgets are multiplied by 3 (>= 4x the CPU time needed on the unchanged tree);
+    # thorough budgets are already generous
+    tasks = [{"prop": prop, "module": module, "obl": o, "known": sorted(known), "tier": tier,
+              "scale": "3" if tier == "quick" else "1"}
              for o in sorted(obls, key=lambda o: -o.get("budget", 60))]
     results = []
     verbose = os.environ.get("VERIF_VERBOSE")
